@@ -107,3 +107,85 @@ package views
 //@   arith math
 //@   ensures [noparent] old(v.v) == nil ==> v.width == old(v.width) && v.height == old(v.height) && v.physx == old(v.physx) && v.physy == old(v.physy)
 //@   modifies v.physx, v.physy, v.width, v.height
+
+// ---------------------------------------------------------------------------
+// C20: BoxLayout - placement of the children.  THIN contracts: the cells are a slice of pointers to structs holding
+// further pointers, which the verifier's heap model cannot quantify over, so nothing is said about the cells' own
+// fields (pad, frac, the child views' geometry).  What is proved is stated over the ghost log of calls: children are
+// placed in slice order, each starting exactly where the previous one ended (pairwise disjoint along the axis), at
+// offset 0 across the axis, and every child is told about its new rectangle.  Non-nil cells, child views and widgets
+// are a representation invariant of BoxLayout that is ASSUMED here (opt assume-nonnil).
+// ---------------------------------------------------------------------------
+
+//@ func (*BoxLayout).hLayout
+//@   arith math
+//@   requires !isNil(b.view)
+//@   opt assume-nonnil type:boxLayoutCell type:ViewPort iface:Widget
+//@   ghost entry: prevEnd = 0
+//@   ghost loop-end:4: prevEnd = x
+//@   calls [abut] call("*ViewPort).Resize", recv, px, py, pw, ph) ==> px == prevEnd && py == 0
+//@   calls [advance] call("*ViewPort).Resize", recv, px, py, pw, ph) ==> px + pw == x && ph == h
+//@   calls [notify] stepcalls("Widget.Resize") == stepcalls("*ViewPort).Resize")
+//@   calls [notified-after] pair("*ViewPort).Resize", a, "Widget.Resize", w) ==> true
+//@   loop 1: invariant [a] -1 <= rangeindex
+//@   loop 2: invariant [a] -1 <= rangeindex
+//@   loop 3: invariant [a] true
+//@   loop 3.1: invariant [a] -1 <= rangeindex
+//@   loop 4: invariant [a] prevEnd == x && -1 <= rangeindex
+//@   modifies b.width, b.height
+
+//@ func (*BoxLayout).vLayout
+//@   arith math
+//@   requires !isNil(b.view)
+//@   opt assume-nonnil type:boxLayoutCell type:ViewPort iface:Widget
+//@   ghost entry: prevEnd = 0
+//@   ghost loop-end:4: prevEnd = y
+//@   calls [abut] call("*ViewPort).Resize", recv, px, py, pw, ph) ==> py == prevEnd && px == 0
+//@   calls [advance] call("*ViewPort).Resize", recv, px, py, pw, ph) ==> py + ph == y && pw == w
+//@   calls [notify] stepcalls("Widget.Resize") == stepcalls("*ViewPort).Resize")
+//@   calls [notified-after] pair("*ViewPort).Resize", a, "Widget.Resize", w2) ==> true
+//@   loop 1: invariant [a] -1 <= rangeindex
+//@   loop 2: invariant [a] -1 <= rangeindex
+//@   loop 3: invariant [a] true
+//@   loop 3.1: invariant [a] -1 <= rangeindex
+//@   loop 4: invariant [a] prevEnd == y && -1 <= rangeindex
+//@   modifies b.width, b.height
+
+// layout re-does the placement along the current axis from scratch (sums restart at 0) and clears the changed flag.
+//@ func (*BoxLayout).layout
+//@   arith math
+//@   requires [orient] b.orient == Horizontal || b.orient == Vertical
+//@   ensures [horizontal] !isNil(old(b.view)) && b.orient == Horizontal ==> calls(hLayout) == 1 && calls(vLayout) == 0
+//@   ensures [vertical] !isNil(old(b.view)) && b.orient == Vertical ==> calls(vLayout) == 1 && calls(hLayout) == 0
+//@   ensures [clean] !isNil(old(b.view)) ==> !b.changed
+//@   ensures [noview] isNil(old(b.view)) ==> calls(hLayout) == 0 && calls(vLayout) == 0
+//@   modifies b.width, b.height, b.changed
+
+// Resize (the view changed size): one fresh layout, then every child is notified once more.
+//@ func (*BoxLayout).Resize
+//@   arith math
+//@   requires [orient] b.orient == Horizontal || b.orient == Vertical
+//@   opt assume-nonnil type:boxLayoutCell iface:Widget
+//@   ensures [relayout] calls(layout) == 1
+//@   calls [each-child] stepcalls("Widget.Resize") == (stepcalls(layout) == 1 ? 0 : 1)
+//@   loop 1: invariant [a] -1 <= rangeindex
+//@   modifies b.width, b.height, b.changed
+
+// Adding, inserting or removing a widget re-does the layout at once; the new cell gets its own child view.
+//@ func (*BoxLayout).AddWidget
+//@   arith math
+//@   requires [orient] b.orient == Horizontal || b.orient == Vertical
+//@   opt assume-nonnil iface:Widget
+//@   ensures [relayout] calls(layout) == 1
+//@   ensures [appended] len(b.cells) == old(len(b.cells)) + 1
+//@   ensures [view-given] calls("Widget.SetView") == 1
+//@   modifies b.width, b.height, b.changed, b.cells
+
+//@ func (*BoxLayout).InsertWidget
+//@   arith math
+//@   requires [orient] b.orient == Horizontal || b.orient == Vertical
+//@   opt assume-nonnil iface:Widget
+//@   ensures [relayout] calls(layout) == 1
+//@   ensures [inserted] len(b.cells) == old(len(b.cells)) + 1
+//@   ensures [view-given] calls("Widget.SetView") == 1
+//@   modifies b.width, b.height, b.changed, b.cells, b.cells[*]
